@@ -546,14 +546,14 @@ class IrToWasmCompiler:
 
     cast_operators2 = {
         # float to int:
-        "F32TOI32": ["f32.nearest", "i32.trunc_f32_s"],
-        "F32TOU32": ["f32.nearest", "i64.trunc_f32_u"],
-        "F32TOI64": ["f32.nearest", "i64.trunc_f32_s"],
-        "F32TOU64": ["f32.nearest", "i64.trunc_f32_u"],
-        "F64TOI64": ["f64.nearest", "i64.trunc_f64_s"],
-        "F64TOU64": ["f64.nearest", "i64.trunc_f64_u"],
-        "F64TOI32": ["f64.nearest", "i32.trunc_f64_s"],
-        "F64TOU32": ["f64.nearest", "i64.trunc_f64_u"],
+        "F32TOI32": ["i32.trunc_f32_s"],
+        "F32TOU32": ["i64.trunc_f32_u"],
+        "F32TOI64": ["i64.trunc_f32_s"],
+        "F32TOU64": ["i64.trunc_f32_u"],
+        "F64TOI64": ["i64.trunc_f64_s"],
+        "F64TOU64": ["i64.trunc_f64_u"],
+        "F64TOI32": ["i32.trunc_f64_s"],
+        "F64TOU32": ["i64.trunc_f64_u"],
         # int to float 64:
         "U64TOF64": ["f64.convert_i64_u"],
         "I64TOF64": ["f64.convert_i64_s"],
